@@ -284,15 +284,17 @@ class Scenario(object):
                 while self.script:
                     self.rt.advance(0.01)
             if res is None:
-                res = '(RMsgs %s)' % coq_list(
-                    ['(%s, %s, %s)' % (coq_Z(m._method['delivery_tag']),
-                                       coq_bytes(m._method['consumer_tag']),
-                                       coq_bytes(m._body)) for m in got])
+                res = '(RMsgs %s)' % msgs_coq(got)
         except vrt.Deadlock:
             res = 'RHang'
+            if got and k in ('process', 'build'):
+                res = '(RMsgsErr %s (Some hang_err))' % msgs_coq(got)
         except Exception as why:
             ec = err_coq(why)
             res = '(RErr %s)' % ec if ec else 'ROther'
+            if got and k in ('process', 'build'):
+                # the messages handed out before the exception stay handed out
+                res = '(RMsgsErr %s %s)' % (msgs_coq(got), '(Some %s)' % ec if ec else 'None')
             if ec and 'EConn' in ec and self.fault_times:
                 # virtual time between the transport fault and this exception
                 self.latencies.append(self.rt.now - self.fault_times[0])
@@ -315,6 +317,12 @@ class Scenario(object):
             self.conn.heartbeat.stop()
         except Exception:
             pass
+
+
+def msgs_coq(got):
+    return coq_list(['(%s, %s, %s)' % (coq_Z(m._method['delivery_tag']),
+                                       coq_bytes(m._method['consumer_tag']),
+                                       coq_bytes(m._body)) for m in got])
 
 
 def run_scenario(nchan, steps, results=None):
